@@ -18,6 +18,18 @@ func init() {
 		{Kind: "block", Name: "Bool_clamp", Func: "Bool", Anchor: "num", Occur: 1},
 		// Value.MarshalAppend, case TypeBool: if val > 1 { b = append(b, 255) } else { b = append(b, byte(val)) }
 		{Kind: "block", Name: "Value_MarshalAppend_bool", Func: "Value.MarshalAppend", Anchor: "b", Occur: 1, Up: 1},
+		// Value.MarshalAppend, the fixed-width scalar cases: if arch == LittleEndian { b = binary.LittleEndian.AppendUintN(b, uintN(v.num)) }
+		// else { b = binary.BigEndian.AppendUintN(…) }; return b, nil   (the n-th assignment to b of the function, one list up)
+		{Kind: "block", Name: "Value_MarshalAppend_int16", Func: "Value.MarshalAppend", Anchor: "b", Occur: 3, Up: 1},
+		{Kind: "block", Name: "Value_MarshalAppend_uint16", Func: "Value.MarshalAppend", Anchor: "b", Occur: 5, Up: 1},
+		{Kind: "block", Name: "Value_MarshalAppend_int32", Func: "Value.MarshalAppend", Anchor: "b", Occur: 7, Up: 1},
+		{Kind: "block", Name: "Value_MarshalAppend_uint32", Func: "Value.MarshalAppend", Anchor: "b", Occur: 9, Up: 1},
+		{Kind: "block", Name: "Value_MarshalAppend_int64", Func: "Value.MarshalAppend", Anchor: "b", Occur: 11, Up: 1},
+		{Kind: "block", Name: "Value_MarshalAppend_uint64", Func: "Value.MarshalAppend", Anchor: "b", Occur: 13, Up: 1},
+		{Kind: "block", Name: "Value_MarshalAppend_float32", Func: "Value.MarshalAppend", Anchor: "b", Occur: 15, Up: 1},
+		{Kind: "block", Name: "Value_MarshalAppend_float64", Func: "Value.MarshalAppend", Anchor: "b", Occur: 17, Up: 1},
+		// case TypeSliceBool: for i := range vals { if vals[i] > 1 { b = append(b, 255) } else { b = append(b, byte(vals[i])) } }; return b, nil
+		{Kind: "block", Name: "Value_MarshalAppend_sliceBool", Func: "Value.MarshalAppend", Anchor: "b", Occur: 21, Up: 2},
 		// UnmarshalValue, a typedef.Bool array: v := typedef.Bool(b[i]); if v > 1 { v = typedef.BoolInvalid }; vals = append(vals, v)
 		{Kind: "block", Name: "UnmarshalValue_boolElem", Func: "UnmarshalValue", Anchor: "v", Occur: 2, Up: 1},
 	}})
